@@ -49,7 +49,7 @@ ASSUMPTIONS = ['transport = marshal version 2 exactly as sandbox.Sandbox._send_t
                'decode_object documents it tolerates',
                'formulas may define classes and import modules (the sandbox is process-level, not language-level)']
 TECHNIQUE = 'round-trip PBT + in-memory transport differential'
-BUDGET = {'quick': dict(examples=1600, shards=8, max_seconds=60),
+BUDGET = {'quick': dict(examples=1000, shards=8, max_seconds=60),
           'thorough': dict(examples=32000, shards=16, max_seconds=600)}
 MIN_NONTRIVIAL = 10
 
